@@ -978,3 +978,9 @@ pub fn verif_permute_symmetric<T: FloatT>(
 ) -> (CscMatrix<T>, Vec<usize>) {
     permute_symmetric(A, iperm)
 }
+/// wrapper of the crate-private AMD ordering call (perm, iperm)
+#[cfg(clarabel_verif)]
+pub fn verif_amd_ordering<T: FloatT>(A: &CscMatrix<T>, amd_dense_scale: f64) -> (Vec<usize>, Vec<usize>) {
+    let (p, ip, _) = get_amd_ordering(A, amd_dense_scale);
+    (p, ip)
+}
